@@ -4,7 +4,8 @@ from common import *  # noqa: F401,F403
 RULE = ("random target curves (polynomial and rational bases, degree 0..3, repeated knots) with random points at (a) default nodes, (b) explicit "
         "random nodes (len = npts: interpolation; len > npts: least squares), (c) samples of a curve of the same space (reproduction); "
         "fit_function with polynomial / same-space functions; fewer points than control points.  Node sets whose collocation matrix is rank "
-        "deficient (exact rank) are classified inadmissible.  Non-trivial: an interior knot or degree >= 2; distinct = distinct (U, W, nodes, points).")
+        "deficient (exact rank) are classified inadmissible.  Non-trivial: an interior knot or degree >= 2; distinct = distinct (U, W, nodes, points)."
+        " Also: fit histories on one (knot vector, node set) with alternating rational / polynomial bases.")
 EXPLANATION = ("L3: with the implementation's control points Q the normal equations B^T (B Q - Z) = 0 are evaluated exactly with the collocation "
                "matrix B from the Lean model (`basis.eval`), interpolation and reproduction by exact comparison; L2: Q vs the model's fit_points.")
 ASSUMPTIONS = ["weights positive", "rank-deficient node sets: any exception is acceptable"]
